@@ -15,6 +15,7 @@ from .c02 import after_list_removal  # noqa: F401
 ID = "C04"
 SHRINK_LISTS = ("ops", "faults")
 SHRINK_MIN = {"nchans": 1, "nbits": 1, "n": 1}
+SHRINK_SIMPLE = {"stale": 0}
 KINDS = ["fil", "fil", "fil", "block", "tim", "dat", "spec", "fft"]
 DT = ["uint8", "uint16", "int64", "float32", "float64"]
 
@@ -63,6 +64,9 @@ def generate(rng, tier) -> dict:
         sc["dotted"] = rng.random() < 0.3
         if rng.random() < 0.15 and kind in ("block", "tim", "dat", "spec"):
             sc["faults"].append({"kind": "W3", "op": 0, "call": rng.choice([0, 1]), "arg": rng.randint(0, 12)})
+    # the output path already holds a LONGER file (an earlier run of the same script with a longer range):
+    # state left on the disk by a previous session, which the new product must replace, not overlay
+    sc["stale"] = rng.choice([0, 0, 0, 1, 7, 64, rng.randint(1, 4096)])
     return sc
 
 
@@ -136,6 +140,13 @@ def check_meta(hdr, sc, mk, *, text=False) -> None:
         raise mk("dm-not-preserved", f"{hdr.dm!r} != {sc['dm']!r}")
 
 
+def stale_file(ctx, path, nbytes) -> None:
+    """Pre-existing content at an output path (written by the harness, not through the seam)."""
+    ctx.probe("output-path-held-a-longer-file")
+    with open(path, "wb") as fp:
+        fp.write(bytes((i * 37 + 11) & 0xFF for i in range(nbytes)))
+
+
 # ------------------------------------------------------------------ execution
 def execute(sc, ctx) -> None:
     kind = sc["kind"]
@@ -179,6 +190,8 @@ def exec_fil(sc, ctx, sim, mk) -> None:
         except Exception as e:  # noqa: BLE001 - context, not the call under test
             ctx.observations["earlier-product-raised:" + type(e).__name__] += 1
         sizes.clear()
+    if sc.get("stale"):
+        stale_file(ctx, path, 1024 + sum(o["n"] for o in sc["ops"]) * nch * 4 + sc["stale"])
     try:
         w = hdr.prep_outfile(path, nbits=d)
     except OSError as e:
@@ -313,6 +326,9 @@ def exec_container(sc, ctx, sim, mk) -> None:
     if sc.get("dotted"):
         stem, sibling = "cand_DM12.50", ("cand_DM12.75" if not sc["faults"] else None)
         ctx.probe("dotted-basename-with-sibling")
+    if sc.get("stale"):
+        for nm in ("blk.fil", f"{stem}.tim", f"{stem}.dat", f"{stem}.inf", f"{stem}.spec", f"{stem}.fft"):
+            stale_file(ctx, os.path.join(ctx.root, nm), 1024 + n * nch * 8 + sc["stale"])
     raised = None
     fired0 = sum(ctx.faults.values())
     try:
